@@ -25,10 +25,47 @@ class ModelFS(object):
         self.shortn = shortn
         self.tmpn = 0
         self.trace = []
+        self.ino = {}           # path -> inode number (assigned lazily); descriptors refer to inodes, as in a real kernel
+        self.fdino = {}
+        self.fdoff = {}
+        self.nino = 0
+        self.sched = None       # optional cooperative scheduler (C13 concurrent writers): every call is a yield point
+
+    def ino_of(self, path):
+        if path not in self.ino:
+            self.nino += 1
+            self.ino[path] = self.nino
+        return self.ino[path]
+
+    def open_fd(self, path):
+        self.tmpn += 1
+        fd = 2 + self.tmpn
+        self.fds[fd] = path
+        self.fdino[fd] = self.ino_of(path)
+        self.fdoff[fd] = 0
+        return fd
+
+    def path_of_fd(self, fd):
+        i = self.fdino.get(fd)
+        for p in self.files:
+            if self.ino.get(p) == i:
+                return p
+        return None
+
+    def yield_(self, op, faultable=False):
+        if self.sched is not None:
+            return self.sched.point(op, faultable)
+        return None
 
     def fault(self, op):
+        inj = self.yield_(op, True)         # with a scheduler the fault decision is taken there (main thread)
         self.ncalls += 1
         self.trace.append(op)
+        if inj == 'error':
+            self.trace.append('FAULT')
+            raise OSError(errno.EIO, 'injected fault in %s' % op)
+        if inj == 'short' and op == 'write':
+            return 'short'
         if self.ncalls == self.fault_at:
             if self.kind == 1:
                 self.trace.append('FAULT')
@@ -43,6 +80,7 @@ class FakePath(object):
         self.fs = fs
 
     def exists(self, p):
+        self.fs.yield_('exists')
         return p in self.fs.files or p in self.fs.dirs
 
     def isfile(self, p):
@@ -79,6 +117,7 @@ class FakePath(object):
 class FakeOs(object):
     F_OK = 0
     sep = '/'
+    O_RDONLY, O_WRONLY, O_RDWR, O_CREAT, O_EXCL, O_TRUNC, O_APPEND = 0, 1, 2, 64, 128, 512, 1024
 
     def __init__(self, fs):
         self.fs = fs
@@ -86,18 +125,43 @@ class FakeOs(object):
 
     def makedirs(self, p, *a, **kw):
         self.fs.fault('makedirs')
+        if p in self.fs.dirs or p in self.fs.files:
+            if not kw.get('exist_ok') or p in self.fs.files:
+                raise OSError(errno.EEXIST, p)
+            return
         self.fs.nmut += 1
         self.fs.dirs.add(p)
+
+    def open(self, p, flags, mode=0o777):
+        """os.open for writers that create their (temporary) file themselves"""
+        self.fs.fault('open')
+        if p not in self.fs.files:
+            if not flags & self.O_CREAT:
+                raise OSError(errno.ENOENT, p)
+            self.fs.nmut += 1
+            self.fs.files[p] = b''
+        elif flags & self.O_EXCL and flags & self.O_CREAT:
+            raise OSError(errno.EEXIST, p)
+        elif flags & self.O_TRUNC:
+            self.fs.nmut += 1
+            self.fs.files[p] = b''
+        return self.fs.open_fd(p)
 
     def write(self, fd, data):
         r = self.fs.fault('write')
         self.fs.nmut += 1
-        path = self.fs.fds[fd]
+        if fd not in self.fs.fds:
+            raise OSError(errno.EBADF, 'bad descriptor')
         n = len(data)
         if r == 'short' and n > 0:
             n = self.fs.shortn if self.fs.shortn < n else n - 1
             self.fs.trace.append('SHORT')
-        self.fs.files[path] = self.fs.files[path] + data[:n]
+        path = self.fs.path_of_fd(fd)          # the inode may have been renamed meanwhile; unlinked: data goes nowhere
+        if path is not None:
+            off = self.fs.fdoff[fd]
+            cur = self.fs.files[path]
+            self.fs.files[path] = cur[:off] + data[:n] + cur[off + n:]
+            self.fs.fdoff[fd] = off + n
         return n
 
     def fsync(self, fd):
@@ -113,19 +177,24 @@ class FakeOs(object):
         if a not in self.fs.files:
             raise OSError(errno.ENOENT, a)
         self.fs.files[b] = self.fs.files.pop(a)
+        self.fs.ino[b] = self.fs.ino_of(a)
+        del self.fs.ino[a]
 
     replace = rename
 
     def unlink(self, p):
+        self.fs.yield_('unlink')
         self.fs.nmut += 1
         self.fs.trace.append('unlink')
         if p not in self.fs.files:
             raise OSError(errno.ENOENT, p)
         del self.fs.files[p]
+        self.fs.ino.pop(p, None)
 
     remove = unlink
 
     def access(self, p, mode):
+        self.fs.yield_('access')
         return p in self.fs.files or p in self.fs.dirs
 
     def stat(self, p):
@@ -142,12 +211,9 @@ class FakeTempfile(object):
     def mkstemp(self, suffix=None, prefix=None, dir=None, text=False):
         self.fs.fault('mkstemp')
         self.fs.nmut += 1
-        self.fs.tmpn += 1
-        p = dir + '/tmp%d' % self.fs.tmpn
+        p = dir + '/tmp%d' % (self.fs.tmpn + 1)
         self.fs.files[p] = b''
-        fd = 2 + self.fs.tmpn
-        self.fs.fds[fd] = p
-        return fd, p
+        return self.fs.open_fd(p), p
 
 
 class FakePyCompile(object):
